@@ -166,3 +166,54 @@ Example C14_quantisation_two_attained :
   r8 (paint8 [d1; d2] bg) = 178%Z /\ r8 (over8 (paint8 [d1; d2] clear8) bg) = 180%Z /\
   dist8 (paint8 [d1; d2] bg) (over8 (paint8 [d1; d2] clear8) bg) = 2%Z.
 Proof. cbv zeta. split; [|split]; vm_compute; reflexivity. Qed.
+
+From Coq Require Import Lqa.
+From RV Require Import Model.BBox Gen.BBoxTables Proofs.BBox Model.LayerTree Proofs.LayerTree.
+(* ------------------------------------------------------------------ second pass: layer_bounding_box from the leaves up
+   `layer_of` composes, over a whole tree, the pieces of C12's model of usvg Group::calculate_bounding_boxes
+   (Model/BBox.v, locked to crates/usvg/src/tree/mod.rs by Gen/BBoxTables.v; tied to the real usvg by the
+   correspondence c14-lbbox).  `inner n q`: q is a point the node can paint, in its own coordinates (leaves: their stroke
+   box; a group with filters: its filter region; any other group: what its children paint, mapped by their transforms). *)
+Local Open Scope Q_scope.
+Theorem C14_layer_source_facts_lock : bbox_facts = bbox_facts_expected.
+Proof. exact bbox_facts_lock. Qed.
+Print Assumptions C14_layer_source_facts_lock.
+
+(* layer_of is the layer field C12's calculate_bounding_boxes stores *)
+Theorem C14_layer_of_is_calculate_bounding_boxes : forall t fs ch abs_ts prev g,
+  calculate_bounding_boxes abs_ts fs prev (map to_child ch) = (g, true) ->
+  layer_of (LGroup t fs ch) = Some (gb_layer g).
+Proof. exact layer_of_is_calculate_bounding_boxes. Qed.
+Print Assumptions C14_layer_of_is_calculate_bounding_boxes.
+
+(* for ALL trees, any nesting depth: the layer box contains everything the node paints *)
+Theorem C14_layer_box_contains_painted : forall n L q,
+  okb n = true -> layer_of n = Some L -> inner n q -> inside L (fst q) (snd q).
+Proof. exact layer_contains_inner. Qed.
+Print Assumptions C14_layer_box_contains_painted.
+
+(* ... and so does the device box render_group derives from it (`layer_bounding_box().transform(transform)?`), which is
+   the `b` of C14_layer_covers_content / C14_nested_layer_covers_content: the layer never clips content unless
+   max_bbox clamps it *)
+Theorem C14_device_layer_box_contains_painted : forall n T L B q,
+  okb n = true -> layer_of n = Some L -> nz_transform T L = Some B -> inner n q ->
+  inside B (map_x T (fst q) (snd q)) (map_y T (fst q) (snd q)).
+Proof. exact device_layer_contains_painted. Qed.
+Print Assumptions C14_device_layer_box_contains_painted.
+
+(* non-vacuity: a group holding a leaf, an empty group, a rotated sub-group with a stroked leaf two levels down and a
+   filtered sub-group; the point (-28, 12) is painted by the rotated leaf (its own (12, 28)) *)
+Example C14_nv_layer_tree :
+  let deep := LGroup (from_row 0 1 (-1) 0 0 0) [] [LGroup (from_row 1 0 0 1 2 3) [] [LLeaf (mkbox 5 5 20 30)]] in
+  let n := LGroup ts_identity [] [LLeaf (mkbox 0 0 10 10); LGroup ts_identity [] []; deep;
+                                  LGroup (from_row 2 0 0 2 0 0) [mkbox 40 40 50 60] [LLeaf (mkbox 0 0 1000 1000)]] in
+  okb n = true /\ layer_of n = Some (mkbox (-33) 0 100 120) /\ inner n (-28, 12).
+Proof.
+  cbv zeta. split; [vm_compute; reflexivity|]. split; [vm_compute; reflexivity|].
+  cbn [inner filters_bounding_box fold_left to_nonzero]. right. right. left.
+  exists (12, 28). split.
+  - cbn [inner filters_bounding_box fold_left to_nonzero]. left. exists (10, 25). split.
+    + unfold inside; cbn. lra.
+    + split; vm_compute; reflexivity.
+  - split; vm_compute; reflexivity.
+Qed.
